@@ -414,6 +414,9 @@ def run_history_property(pid, tier, seed, rule, level='exploration', extra_cov=N
     if os.environ.get('VERIF_CASES'):  # experimentation only (sensitivity runs); registered commands never set it
         cases = int(os.environ['VERIF_CASES'])
     pool = pool_for(pid, tier, seed)
+    if os.environ.get('VERIF_ONLY'):  # experimentation only: restrict the pool to configurations whose name matches
+        import re
+        pool = [c for c in pool if re.search(os.environ['VERIF_ONLY'], c['name'])]
     b = Builder()
     built = b.build_all(pool)
     prune_build_cache()
